@@ -239,8 +239,9 @@ def add_reads_ending_in_variants(rng, sc, per_variant=5, min_len=30):
     return sc
 
 
-def vcf_text(sc, phased=None, samples=None, rev_rng=None, rev_frac=0.0):
-    """Main VCF (unphased, GT alleles ascending; with rev_rng a fraction rev_frac of the unphased genotypes is spelled in descending order, e.g. 1/0).  phased: optional {sample: "PS"} to write the truth phasing (one set per contig)."""
+def vcf_text(sc, phased=None, samples=None, rev_rng=None, rev_frac=0.0, stale_rng=None):
+    """(stale_rng: the file carries phasing from an earlier, unrelated run: every heterozygous call is written phased in a random order, one PS set per contig.)
+    Main VCF (unphased, GT alleles ascending; with rev_rng a fraction rev_frac of the unphased genotypes is spelled in descending order, e.g. 1/0).  phased: optional {sample: "PS"} to write the truth phasing (one set per contig)."""
     samples = samples or sc["samples"]
     lines = ["##fileformat=VCFv4.2", '##FORMAT=<ID=GT,Number=1,Type=String,Description="Genotype">',
              '##FORMAT=<ID=PS,Number=1,Type=Integer,Description="Phase set identifier">']
@@ -253,7 +254,15 @@ def vcf_text(sc, phased=None, samples=None, rev_rng=None, rev_frac=0.0):
             calls = []
             for s in samples:
                 col = [h[i] for h in sc["truth"][s][c["name"]]]
-                if phased and s in phased and len(set(col)) > 1:
+                if stale_rng is not None and len(set(col)) > 1:
+                    if s not in first_het:
+                        first_het[s] = v["pos"] + 1
+                    order = list(col)
+                    stale_rng.shuffle(order)
+                    calls.append("|".join(map(str, order)) + ":%d" % first_het[s])
+                elif stale_rng is not None:
+                    calls.append("/".join(map(str, sorted(col))) + ":.")
+                elif phased and s in phased and len(set(col)) > 1:
                     if s not in first_het:
                         first_het[s] = v["pos"] + 1
                     calls.append("|".join(map(str, col)) + ":%d" % first_het[s])
@@ -262,7 +271,7 @@ def vcf_text(sc, phased=None, samples=None, rev_rng=None, rev_frac=0.0):
                     if rev_rng is not None and rev_rng.random() < rev_frac:
                         alleles = alleles[::-1]
                     calls.append("/".join(map(str, alleles)) + (":." if phased else ""))
-            lines.append("\t".join([c["name"], str(v["pos"] + 1), ".", v["ref"], v["alt"], ".", "PASS", ".", "GT:PS" if phased else "GT"] + calls))
+            lines.append("\t".join([c["name"], str(v["pos"] + 1), ".", v["ref"], v["alt"], ".", "PASS", ".", "GT:PS" if (phased or stale_rng is not None) else "GT"] + calls))
     return "\n".join(lines) + "\n"
 
 
